@@ -13,6 +13,7 @@ import (
 
 	"verif/batch"
 	"verif/ev"
+	"verif/oracle/htmltok"
 	"verif/tbatch"
 	"verif/tc"
 	"verif/tgen"
@@ -278,6 +279,18 @@ func runCase(bin *tbatch.Binary, k int, f *tgen.File, steps []step) (int, error)
 		return 0, nil // the program fails even without injected faults (not possible with Fail=false)
 	}
 	d0 := res[0].Out
+	// "the full document" is what the template denotes for these arguments, not merely what the
+	// first render happened to write: compared with the reference interpreter
+	a0 := jobs[0].Args
+	if den0 := tgen.Eval(f, a0); !den0.Err {
+		c, cerr := htmltok.Canon(d0)
+		if cerr != nil {
+			return 0, fmt.Errorf("the fault-free document does not tokenize: %v", cerr)
+		}
+		if !den0.Regexp().MatchString(c) {
+			return 0, fmt.Errorf("the fault-free render wrote %d bytes that are not the document the template denotes for %d-byte s1 / %d-byte s2 / %d xs (pieces missing, repeated or out of order): got %q", len(d0), len(a0.S1), len(a0.S2), len(a0.XS), clip(d0))
+		}
+	}
 	prevFailed := false
 	for i, st := range steps {
 		r := res[i+1]
